@@ -96,7 +96,9 @@ def statement_seq(draw, *, arity: int, mode: str, max_len: int = 12, min_len: in
         o_pool = iris + bnodes + lits
         g_pool = iris[:3] + bnodes + gdefault + gdefault
         if rdflib_safe:  # rdflib cannot hold a graph named by the empty IRI (falsy identifier -> fresh BNode)
-            g_pool = [g for g in g_pool if g not in (["iri", ""], ["bnode", ""])]
+            # ... and an IRI spelled like rdflib's own name for the default graph IS the default graph there (Hypothesis
+            # feeds string constants found in imported modules into st.text(), so this spelling does get generated)
+            g_pool = [g for g in g_pool if g not in (["iri", ""], ["bnode", ""], ["iri", "urn:x-rdflib:default"])]
     pools = [s_pool, p_pool, o_pool, g_pool][:arity]
     n = max(draw(st.integers(min_len, max_len)), draw(st.integers(min_len, max_len)))
     out = []
